@@ -240,7 +240,9 @@ def gen_c20(run_seed):
             ops.append(op)
         elif r < 0.78:
             gen_n += 1
-            ops.append({'op': 'set_global', 'global': 'g0', 'layer': gen_global(rng, list(cur.values()), gen_n)})
+            # (sometimes the settings are reset to nothing at all)
+            layer = {} if maybe(rng, 0.2) else gen_global(rng, list(cur.values()), gen_n)
+            ops.append({'op': 'set_global', 'global': 'g0', 'layer': layer})
         elif r < 0.95:
             gen_n += 1
             sec = pick(rng, ['options', 'options', 'snippets', 'variables'])
